@@ -195,6 +195,8 @@ fn main() {
         "C18" => eng_c18::c18(&mut ctx),
         "C19" => eng_gsd::c19(&mut ctx),
         "C20" => eng_prm::c20(&mut ctx),
+        // (build warm-up of the Miri leg: compiles everything, interprets nothing)
+        "NOOP" => {}
         _ => {
             eprintln!("unknown property {}", prop);
             std::process::exit(2);
